@@ -279,12 +279,6 @@ WantSets(U, sh, full) ==
     {w \in SUBSET SenderRefs(U, sh) : w # {} /\ Cardinality(w) <= MaxWants}
     \cup (IF Forge THEN {{o} : o \in SenderStore(U, sh, full) \ SenderRefs(U, sh)} ELSE {})
 
-Cases ==
-    {[U |-> u, sh |-> sh, full |-> full, rh |-> rh, rt |-> rt, wants |-> w, mode |-> m, inctag |-> it, thin |-> th] :
-        u \in Universes, sh \in (SUBSET (1..NC)) \ {{}}, full \in SFull,
-        rh \in SUBSET (1..NC), rt \in SUBSET (1..NT), w \in SUBSET AllObjects([par |-> <<>>, tr |-> <<>>, ent |-> Pool, lnk |-> PoolLink, tg |-> <<>>]),
-        m \in Modes, it \in IncTag, th \in Thin}
-
 VARIABLES
     cs,        \* the case (constant during a behaviour)
     rstore,    \* receiver's object store
@@ -311,7 +305,7 @@ Init ==
             cs = [U |-> u, sh |-> sh, full |-> full, rh |-> rh, rt |-> rt, wants |-> w,
                   mode |-> m, inctag |-> it, thin |-> th]
     /\ rstore = RStore0
-    /\ cpc = "head" /\ heads = cs.rh /\ wp = WalkerInit(NC) /\ inVain = 0 /\ gotAck = FALSE /\ mayRead = FALSE
+    /\ cpc = "head" /\ heads = cs.rh /\ wp = WalkerInit(Len(cs.U.par)) /\ inVain = 0 /\ gotAck = FALSE /\ mayRead = FALSE
     /\ c2s = <<>> /\ s2c = <<>>
     /\ spc = "wants" /\ st = [common |-> <<>>, found |-> FALSE, haves |-> <<>>]
     /\ tagged = <<>> /\ todo = {} /\ shaDone = {} /\ sent = {} /\ remoteHas = {} /\ bases = {}
@@ -381,8 +375,6 @@ SDone ==
     /\ \E tg \in (IF cs.inctag THEN TaggedChoices(U_, TagsOf(U_)) ELSE {<<>>}) :
          LET hs == {st.haves[i] : i \in 1..Len(st.haves)}
              i  == MofInit(U_, SStore, hs, cs.wants)
-             tg2 == IF Bug = "TaggedAny" /\ cs.inctag /\ TagsOf(U_) # {}
-                    THEN [o \in i.todo |-> <<>>] ELSE <<>>      \* unused
          IN  /\ tagged' = tg
              /\ todo' = IF Bug = "TaggedAny" /\ cs.inctag
                         THEN i.todo \cup {<<g, TRUE>> : g \in TagsOf(U_)} ELSE i.todo
@@ -392,7 +384,7 @@ SDone ==
 (* both sides in one step (object-graph configurations): the walk runs to the end *)
 AtomicNegotiation ==
     /\ AtomicNeg /\ spc = "haves" /\ cpc = "head"
-    /\ LET hs == CompleteWalk(U_, SStore, cs.rh, WalkerInit(NC), {}) IN
+    /\ LET hs == CompleteWalk(U_, SStore, cs.rh, WalkerInit(Len(cs.U.par)), {}) IN
        \E tg \in (IF cs.inctag THEN TaggedChoices(U_, TagsOf(U_)) ELSE {<<>>}) :
          LET i == MofInit(U_, SStore, hs, cs.wants) IN
          /\ tagged' = tg
@@ -456,7 +448,6 @@ Antecedent == Closed(U_, SStore) /\ Closed(U_, RStore0)
 \* and is closed again
 ReceiverComplete ==
     outcome = "ok" => /\ WantClosure \subseteq rstore
-                      /\ Closed(U_, Closure(U_, ReceiverTips(cs.rh, cs.rt) \cup cs.wants) \cap rstore)
                       /\ Closure(U_, ReceiverTips(cs.rh, cs.rt) \cup cs.wants) \subseteq rstore
 
 NoLoss == RStore0 \subseteq rstore
@@ -481,12 +472,9 @@ ThinResolvable == outcome # "unresolved"
 Confluent ==
     (spc = "end" /\ ~(Bug = "TaggedAny")) =>
         sent = MofSent(U_, SStore, {st.haves[i] : i \in 1..Len(st.haves)} \cup
-                           (IF AtomicNeg THEN CompleteWalk(U_, SStore, cs.rh, WalkerInit(NC), {}) ELSE {}),
+                           (IF AtomicNeg THEN CompleteWalk(U_, SStore, cs.rh, WalkerInit(Len(cs.U.par)), {}) ELSE {}),
                        cs.wants, tagged)
 
 \* the server only ever counts as common what the receiver really has (so remote_has is sound)
 HavesSound == \A i \in 1..Len(st.haves) : st.haves[i] \in RStore0 \cap SStore
-
-\* every behaviour ends: either success, or refusal, or a client-side failure
-Terminal == (cpc \in {"end", "failed"}) \/ ENABLED Next
 =============================================================================
